@@ -89,6 +89,8 @@ def _identity_guard(prog, f, bb, val_origins):
     """a dominating == / != between something derived from the running instructions and a sibling of the jump value"""
     for sbb, labels in flow.guards(f, bb):
         c = flow.cond_of(f, sbb)
+        if c.kind == "call" and prog.has_fn(c.call.name) and _helper_guard(prog, f, c, labels, val_origins):
+            return sbb
         if c.kind != "bin" or c.rv.get("op") not in ("Eq", "Ne"):
             continue
         eq_side = (labels <= {"0"}) if c.rv["op"] == "Ne" else ("0" not in labels)
@@ -108,6 +110,43 @@ def _identity_guard(prog, f, bb, val_origins):
                     if _base_key(so) == _base_key(vo) and sf == fld and fld is not None:
                         return sbb
     return None
+
+
+def _helper_guard(prog, f, c, labels, val_origins):
+    """the comparison lives in a helper: `if !Self::runs_instructions(state, id) { bail }`.  The helper returns the
+    result of an == / != between something derived from `.instructions` of one parameter and another parameter; the
+    call passes a sibling of the jump value for the latter, and the jump sits on the helper's 'equal' side."""
+    g = prog.fn(c.call.name)
+    if g.kind == "closure" or not g.raw.get("blocks"):
+        return False
+    for o in flow.origins(g, 0):
+        if o.kind != "bin" or o.rv.get("op") not in ("Eq", "Ne"):
+            continue
+        sides = [flow.origins(g, o.rv["a"]), flow.origins(g, o.rv["b"])]
+        for me, other in ((0, 1), (1, 0)):
+            if not any(x.kind == "arg" and "instructions" in x.proj for x in sides[me]):
+                continue
+            params = [x.arg for x in sides[other] if x.kind == "arg" and not x.proj]
+            if len(params) != 1 or params[0] > len(c.call.args):
+                continue
+            passed = flow.origins(f, c.call.args[params[0] - 1], through_calls=flow._xpass)
+            sib = False
+            for vo in val_origins:
+                fld, _ = _field_of(vo)
+                for so in passed:
+                    sf, _ = _field_of(so)
+                    if fld is not None and sf == fld and _base_key(so) == _base_key(vo):
+                        sib = True
+            if not sib:
+                continue
+            truth = flow.bool_true_labels(labels)
+            if truth is None:
+                continue
+            truth = truth != c.neg
+            equal_when = (o.rv["op"] == "Eq")
+            if truth == equal_when:
+                return True
+    return False
 
 
 def check_jumps(ctx, prog, tag):
